@@ -8,14 +8,15 @@
 (*    content key only: equal across repeated runs, across subsets and     *)
 (*    permutations of files_to_generate, across environments (C13);        *)
 (*  - output names are a function of the model's name key;                 *)
-(*  - nothing environment-dependent appears in the content.                *)
+(*  - nothing environment-dependent appears in the content;                *)
+(*  - an error answer is the same text for the same request.               *)
 (* State: the hash / name first seen for each key.                         *)
 (***************************************************************************)
 EXTENDS PluginModel
 Trace == ndJsonDeserialize(IOEnv.VERIF_TRACE)
 
-VARIABLES l, seenSha, seenName
-tvars == <<l, seenSha, seenName>>
+VARIABLES l, seenSha, seenName, seenErr
+tvars == <<l, seenSha, seenName, seenErr>>
 
 Rng(s) == {s[i] : i \in 1..Len(s)}
 
@@ -32,8 +33,12 @@ Step ==
            nameOk == classOk => \A i \in 1..Len(e.out) :
                         LET k == nameOf(e.out[i].file) IN k \in DOMAIN seenName => seenName[k] = e.out[i].name
            hermOk == e.hermetic = <<>>
-       IN /\ (IF classOk /\ shaOk /\ nameOk /\ hermOk THEN TRUE
-              ELSE PrintT("VERDICT " \o ToJson([l |-> l, class |-> classOk, sha |-> shaOk, name |-> nameOk, hermetic |-> hermOk])))
+           \* the response is a function of the request also when it is an error message
+           req == <<e.fp, e.pp, e.mp, e.flag, e.gen>>
+           errOk == (e.obs = "error" /\ req \in DOMAIN seenErr) => seenErr[req] = e.errsha
+       IN /\ (IF classOk /\ shaOk /\ nameOk /\ hermOk /\ errOk THEN TRUE
+              ELSE PrintT("VERDICT " \o ToJson([l |-> l, class |-> classOk, sha |-> shaOk /\ errOk, name |-> nameOk, hermetic |-> hermOk])))
+          /\ seenErr' = IF e.obs = "error" /\ req \notin DOMAIN seenErr THEN (req :> e.errsha) @@ seenErr ELSE seenErr
           /\ seenSha' = IF classOk
                         THEN [k \in DOMAIN seenSha \cup {keyOf(e.out[i].file) : i \in 1..Len(e.out)} |->
                                  IF k \in DOMAIN seenSha THEN seenSha[k]
@@ -46,7 +51,7 @@ Step ==
                          ELSE seenName
     /\ l' = l + 1
 
-TInit == l = 1 /\ seenSha = <<>> /\ seenName = <<>>
+TInit == l = 1 /\ seenSha = <<>> /\ seenName = <<>> /\ seenErr = <<>>
 TSpec == TInit /\ [][Step]_tvars
 AllConsumed == TLCGet("stats").diameter = Len(Trace) + 1 /\ PrintT("TRACE-DONE " \o ToString(Len(Trace)))
 =============================================================================
